@@ -83,6 +83,8 @@ package pogreb
 //@   ensures vsize: le32(contents(data), off(data)+2) == uint32(len(value))
 //@   ensures key: forall j int :: 0 <= j && j < len(key) ==> data[6+j] == key[j]
 //@   ensures value: forall j int :: 0 <= j && j < len(value) ==> data[6+len(key)+j] == value[j]
+//@   ensures keybytes: sameBytes(contents(data), off(data)+6, contents(key), off(key), len(key))
+//@   ensures valuebytes: sameBytes(contents(data), off(data)+6+len(key), contents(value), off(value), len(value))
 //@   ensures crc: le32(contents(data), off(data)+len(data)-4) == crc(contents(data), off(data), len(data)-4)
 
 //@ func encodeDeleteRecord(key []byte) (data []byte) [C16,C18]
